@@ -171,12 +171,21 @@ func (m *PublishMessage) Decode(src []byte) (int, error) {
 	// The packet identifier field is only present in the PUBLISH packets where the
 	// QoS level is 1 or 2
 	if m.QoS() != 0 {
+		// The packet identifier must lie inside the packet, not in whatever
+		// follows it in the buffer.
+		if int(m.remlen)-(total-hn) < 2 {
+			return total, fmt.Errorf("publish/Decode: Remaining length (%d) too small for a packet identifier", m.remlen)
+		}
+
 		//m.packetId = binary.BigEndian.Uint16(src[total:])
 		m.packetID = src[total : total+2]
 		total += 2
 	}
 
 	l := int(m.remlen) - (total - hn)
+	if l < 0 {
+		return total, fmt.Errorf("publish/Decode: Remaining length (%d) too small for the topic name", m.remlen)
+	}
 	m.payload = src[total : total+l]
 	total += len(m.payload)
 
